@@ -1,4 +1,5 @@
 import MitmVerif.Model.C18
+import MitmVerif.Model.C18_Quic
 import Driver.Proto
 open MitmVerif Driver
 
@@ -47,6 +48,12 @@ def c18Step (line : String) : String :=
     match (if kinds = "nil" then some [] else (kinds.splitOn ",").mapM c18Kind), c18Opt ca with
     | some ks, some ca => c18Show (C18.startClientPin ks ca)
     | _, _ => "bad-op"
+  | ["quic", ca, sa, o] =>
+    match c18Opt ca, c18Opt sa, c18List o with
+    | some ca, some sa, some o =>
+      let l := C18.quicClientAlpns ca sa o
+      (if l.isEmpty then "nil" else ",".intercalate (l.map showBytes)) ++ " " ++ c18Show (C18.quicNegotiate ca sa o)
+    | _, _, _ => "bad-op"
   | ["srv", h, preset, co] =>
     match c18Bool h, c18List preset, c18List co with
     | some h, some p, some co =>
